@@ -205,6 +205,14 @@ func checkLockHygiene(w *World, r *Report, la *LockAnalysis) {
 				base := fmt.Sprintf("%s#call:%s", u.name, exprStr(c.Fun))
 				seq[base]++
 				construct := fmt.Sprintf("%s/%d", base, seq[base])
+				// the yield of an iterator that is consumed on the spot is the consumer's loop body:
+				// repository code at the call site, judged there
+				if u.iterOf != nil && u.lit != nil && len(u.lit.Type.Params.List) == 1 && len(u.lit.Type.Params.List[0].Names) == 1 {
+					if id, isId := unparen(c.Fun).(*ast.Ident); isId && info.Uses[id] == info.Defs[u.lit.Type.Params.List[0].Names[0]] {
+						r.OK("R09.2ii", construct, c.Pos(), true, "yield of an iterator consumed on the spot: the loop body of the repository function that ranges over it")
+						continue
+					}
+				}
 				if what, ok := userCodeCall(info, c, binds[u]); ok {
 					r.Fail("R09.2ii", construct, c.Pos(), "%s is called while %v is held: user code can re-enter the container or block", what, heldIDs)
 					continue
